@@ -8,6 +8,16 @@ use serde_json::{json, Map};
 use std::collections::BTreeMap;
 use std::sync::Mutex;
 
+/// The Unicode class names scnr documents as supported at the pinned commit (one-letter general
+/// categories and binary properties).
+const DOCUMENTED_UNICODE: [&str; 59] = [
+    "L", "N", "Z", "P", "C", "Alphabetic", "ASCII_Hex_Digit", "Bidi_Control", "Case_Ignorable", "Cased", "Composition_Exclusion", "Dash", "Default_Ignorable_Code_Point", "Deprecated", "Diacritic", "Emoji_Component",
+    "Emoji_Modifier_Base", "Emoji_Modifier", "Emoji_Presentation", "Emoji", "Extended_Pictographic", "Extender", "Full_Composition_Exclusion", "Grapheme_Extend", "Hex_Digit", "Hyphen", "ID_Continue", "ID_Start",
+    "Ideographic", "IDS_Binary_Operator", "IDS_Trinary_Operator", "Join_Control", "Logical_Order_Exception", "Lowercase", "Math", "Noncharacter_Code_Point", "Other_Alphabetic", "Other_Default_Ignorable_Code_Point",
+    "Other_Grapheme_Extend", "Other_ID_Continue", "Other_ID_Start", "Other_Lowercase", "Other_Math", "Other_Uppercase", "Pattern_Syntax", "Pattern_White_Space", "Prepended_Concatenation_Mark", "Quotation_Mark",
+    "Radical", "Regional_Indicator", "Sentence_Terminal", "Soft_Dotted", "Terminal_Punctuation", "Unified_Ideograph", "Uppercase", "Variation_Selector", "White_Space", "XID_Continue", "XID_Start",
+];
+
 #[derive(Debug, Clone, Copy, PartialEq, Eq, PartialOrd, Ord)]
 enum Class {
     SyntaxErr,
@@ -400,6 +410,74 @@ pub fn run(tier: Tier) -> ! {
             merge(&mut total, a);
         }
         fams.push(json!({"family": "(f) literals and ranges whose bounds are U+0000, U+0001, U+007F/80, U+07FF/800, U+D7FF, U+E000, U+FFFD, U+FFFF, U+10000, U+10FFFE, U+10FFFF (all ordered pairs), plain, negated, nested, intersected, subtracted; as pattern and as lookahead", "patterns": n, "exhaustive": true}));
+    }
+
+    // (g) Unicode class names outside the documented list. A name Unicode does not know must be
+    // rejected. A name Unicode knows (general categories, scripts, ...) is documented as
+    // unsupported at this commit; should it build nevertheless, it must at least denote its own
+    // property and not another class ("never mis-compiled"): its membership over all scalars is
+    // compared with regex-syntax's Unicode tables (2 % tolerance for differing Unicode versions).
+    {
+        let documented: std::collections::BTreeSet<&str> = DOCUMENTED_UNICODE.iter().copied().collect();
+        let known_to_unicode = ["Lu", "Ll", "Lt", "Lm", "Lo", "Mn", "Mc", "Me", "Nd", "Nl", "No", "Pc", "Pd", "Ps", "Pe", "Pi", "Pf", "Po", "Sm", "Sc", "Sk", "So", "Zs", "Zl", "Zp", "Cc", "Cf", "Co", "Cn", "M", "S", "Letter", "Uppercase_Letter", "Lowercase_Letter", "Mark", "Number", "Decimal_Number", "Punctuation", "Symbol", "Separator", "Other", "Control", "Latin", "Greek", "Cyrillic", "Han", "Arabic", "Hebrew", "Hiragana", "Katakana", "Thai", "Common", "Inherited", "Armenian", "Devanagari", "Any", "Assigned", "ASCII"];
+        let unknown = ["Foo", "Lx", "Latn1", "Nx", "Zz", "Pq", "Cx", "Letters", "Numbers", "Punct", "Ctrl", "Xyz", "Upper_case", "Alpha", "Is_L", "InLatin"];
+        let mut items: Vec<(String, Option<&str>)> = vec![];
+        for n in known_to_unicode.iter().filter(|n| !documented.contains(**n)) {
+            for form in [format!("\\p{{{n}}}"), format!("\\P{{{n}}}"), format!("[\\p{{{n}}}]"), format!("\\p{{^{n}}}")] {
+                items.push((form, Some(*n)));
+            }
+            if n.len() == 1 {
+                items.push((format!("\\p{n}"), Some(*n)));
+                items.push((format!("\\P{n}"), Some(*n)));
+            }
+        }
+        for n in unknown {
+            for form in [format!("\\p{{{n}}}"), format!("\\P{{{n}}}"), format!("[a\\p{{{n}}}]"), format!("\\p{{^{n}}}")] {
+                items.push((form, None));
+            }
+        }
+        let accs = par_for(items.len(), 1, || Acc { samples: Samples::new(1), ..Default::default() }, |acc, i| {
+            let (pat, known) = &items[i];
+            acc.n += 1;
+            let cfg = Cfg::single(vec![CPat::new(pat, 0)]);
+            let got = build_outcome(&cfg, false);
+            *acc.stats.entry(format!("unicode-names:{}:{got}", if known.is_some() { "known-to-unicode" } else { "unknown" })).or_default() += 1;
+            let mut problem = None;
+            if got == "panic" {
+                problem = Some("build panicked".to_string());
+            } else if got == "ok" {
+                match known {
+                    None => problem = Some("a class name Unicode does not know builds".to_string()),
+                    Some(_) => {
+                        // truth from regex-syntax's tables
+                        let truth = regex_syntax::Parser::new().parse(pat).ok().and_then(|h| match h.kind() {
+                            regex_syntax::hir::HirKind::Class(regex_syntax::hir::Class::Unicode(c)) => Some(c.ranges().iter().map(|r| (r.start(), r.end())).collect::<Vec<_>>()),
+                            _ => None,
+                        });
+                        match (truth, bridge::tabulate_pattern(pat)) {
+                            (Some(ranges), Ok(set)) => {
+                                let truth = refsem::sem::CharSet::from_pred(|c| ranges.iter().any(|(a, b)| *a <= c && c <= *b));
+                                let differing = truth.zip(&set, |x, y| x ^ y).count();
+                                let size = truth.count().min(truth.complement().count()).max(3200);
+                                if differing * 50 > size {
+                                    problem = Some(format!("the class builds although it is documented as unsupported, and it does not denote its Unicode property: {differing} scalars differ from the Unicode tables (first: {:?})", truth.first_difference(&set)));
+                                }
+                            }
+                            (_, Err(e)) => problem = Some(format!("the class builds but cannot be tabulated: {e}")),
+                            (None, _) => {}
+                        }
+                    }
+                }
+            }
+            if let Some(p) = problem {
+                acc.viol.add("", || Violation { key: String::new(), summary: format!("Unicode class {pat:?}: {p}"), replay: json!({"configuration": cfg.to_json(), "call": "ScannerBuilder::build_uncached(), then find_iter over the string of all scalar values", "problem": p}) });
+            }
+        });
+        let n = items.len();
+        for a in accs {
+            merge(&mut total, a);
+        }
+        fams.push(json!({"family": "(g) Unicode class names outside the documented list: 58 names Unicode knows (general categories, scripts, Any/Assigned/ASCII) and 16 it does not, as \\p{N}, \\P{N}, [\\p{N}], \\p{^N} (and \\pN for one-letter names): unknown names must be rejected; a known one that builds must denote its own property", "patterns": n, "exhaustive": true}));
     }
 
     // (c) through the cache: classification independent of the cache, no panic poisons it
